@@ -326,14 +326,14 @@ def m_concat(E, st, fr, bi, callee, args, dest_ty):
                 for i in range(pl):
                     heads[off + i] = part.head[i]
             else:
-                exact = False
+                exact = False       # later parts are smashed; the distinguished prefix collected so far stays valid
             total = E.binop(st, "Add", total, part.len, usz, False)
             pe = E._flat_elem(st, part)
             if st.hi(part.len) > 0:
                 elem = pe if elem is None else E.join_vals(st, elem, pe)
             elif elem is None:
                 elem = pe
-        return ret1(Sq(elem, total, heads if (exact and heads) else None, None), st)
+        return ret1(Sq(elem, total, heads or None, None), st)
     inner = deref2(E, st, outer.elem)
     return ret1(Sq(inner.elem, usize(E, st, 0, ISIZE_MAX), None, None), st)
 
@@ -974,7 +974,22 @@ def m_iter_anyall(E, st, fr, bi, callee, args, dest_ty):
     except Unsupported:
         pass
     src = it.d.get("src") if it.d["k"] == "slice" else None
-    b = E.mkbool(st, val, ("anyall", (), (is_all, src, args[1], fty, (fr.id, bi))))
+    # the closure's captures may live in a frame that is gone when the result is branched on: keep copies
+    fval = args[1]
+    if type(fval) is Ag:
+        caps = []
+        for ci, c in enumerate(fval.f):
+            if type(c) is Pt and c.key is not None:
+                try:
+                    k2 = ("h", "envcopy", fr.id, bi, ci)
+                    st.store[k2] = E.load(st, c.key, c.proj)
+                    caps.append(Pt(k2))
+                except (Unsupported, Diverge):
+                    caps.append(c)
+            else:
+                caps.append(c)
+        fval = Ag(caps)
+    b = E.mkbool(st, val, ("anyall", (), (is_all, src, fval, fty, (fr.id, bi))))
     return ret1(b, st)
 
 
@@ -1440,6 +1455,29 @@ def m_transform_assumed(E, st, fr, bi, callee, args, dest_ty):
     return ret1(UNIT, st)
 
 
+def m_box_new_uninit(E, st, fr, bi, callee, args, dest_ty):
+    # Box::<[T; N]>::new_uninit(): the `vec![a, b, ..]` lowering writes the array through the raw pointer
+    # (MaybeUninit { uninit, value: ManuallyDrop { value: MaybeDangling(T) } }) and then calls
+    # box_assume_init_into_vec_unsafe
+    key = ("h", "boxuninit", fr.id, bi)
+    st.store[key] = Ag((UNIT, Ag((Ag((Top(None),)),))))
+    return ret1(Md("box", {"ptr": Pt(key, (), True), "uninit": True}), st)
+
+
+def m_box_into_vec(E, st, fr, bi, callee, args, dest_ty):
+    b = args[0]
+    if type(b) is not Md or b.kind != "box":
+        raise Unsupported("into_vec of non-box")
+    cell = E.load(st, b.d["ptr"].key, b.d["ptr"].proj)
+    try:
+        arr = cell.f[1].f[0].f[0] if b.d.get("uninit") else cell
+    except Exception:
+        raise Unsupported("box layout")
+    if type(arr) is not Sq:
+        raise Unsupported("boxed value is not an array")
+    return ret1(Sq(arr.elem, arr.len, arr.head, None), st)
+
+
 # ---------------------------------------------------------------------------------- registry
 def build(ctx):
     M = Models(ctx)
@@ -1541,6 +1579,8 @@ def build(ctx):
     A(r"^<.*Shake256Core> as sha3::digest::Update>::update$", m_shake_update)
     A(r"^<.*Shake256Core> as sha3::digest::ExtendableOutput>::finalize_xof$", m_shake_finalize)
     A(r"^<.*Shake256ReaderCore> as sha3::digest::XofReader>::read$", m_xof_read)
+    A(r"^std::boxed::Box::<\[.*\]>::new_uninit$", m_box_new_uninit)
+    A(r"^std::boxed::box_assume_init_into_vec_unsafe::<", m_box_into_vec)
     A(r"^<.* as std::iter::IntoIterator>::into_iter$", m_identity)
     A(r"^<falcon_rust::falcon_field::Felt as falcon_rust::cyclotomic_fourier::CyclotomicFourier>::(fft|ifft)$", m_transform_assumed)
     return M
